@@ -1058,6 +1058,12 @@ def convert_to_typing_types(x: typing.Type) -> typing.Type:
         typing.List[typing.Dict[int, float]]
         >>> convert_to_typing_types(list[dict[int, tuple[float, str]]])
         typing.List[typing.Dict[int, typing.Tuple[float, str]]]
+        >>> convert_to_typing_types(collections.abc.Callable[[int, list[str]], bool])
+        typing.Callable[[int, typing.List[str]], bool]
+        >>> convert_to_typing_types(collections.abc.Callable[[], list])
+        typing.Callable[[], list]
+        >>> convert_to_typing_types(list[collections.abc.Callable[..., int]])
+        typing.List[typing.Callable[..., int]]
     """
 
     if x in {list, set, dict, frozenset, tuple, type}:
@@ -1067,6 +1073,17 @@ def convert_to_typing_types(x: typing.Type) -> typing.Type:
         return x  # typing constructs (Optional, Union, Literal, ...) are handled by _is_instance itself
 
     origin = x.__origin__  # type: ignore # checked above
+
+    if origin is collections.abc.Callable:
+        # __args__ is flat: (A1, ..., An, R) or (Ellipsis, R). The types inside a Callable are compared, never instance-checked,
+        # so - as in typing.Callable[[list], R] - a bare builtin is no error here.
+        flat = [a if a in {list, set, dict, frozenset, tuple, type} else convert_to_typing_types(a) for a in x.__args__]  # type: ignore
+
+        if len(flat) == 2 and (flat[0] is Ellipsis or isinstance(flat[0], typing.ParamSpec) or typing.get_origin(flat[0]) is typing.Concatenate):
+            return typing.Callable[flat[0], flat[1]]
+
+        return typing.Callable[flat[:-1], flat[-1]]
+
     args = [convert_to_typing_types(a) for a in x.__args__]  # type: ignore
 
     if origin is list:
